@@ -57,9 +57,10 @@ type livePeer struct {
 	streamOn    bool
 	// announcements without delivery (C14 live): one entry is sent as an inv per ping tick once the
 	// node is in sync on the connection; getdata(tx) requests are recorded with their arrival time
-	invQueue [][]bitcoin.Hash32
-	txReqs   []liveTxReq
-	wlocks   map[net.Conn]*sync.Mutex // one writer at a time per connection
+	invQueue      [][]bitcoin.Hash32
+	txReqs        []liveTxReq
+	wlocks        map[net.Conn]*sync.Mutex // one writer at a time per connection
+	writeTimeouts int
 }
 
 type liveTxReq struct {
@@ -116,6 +117,11 @@ func (lp *livePeer) writeLocked(c net.Conn, msgs []peerMsg) bool {
 	for _, pm := range msgs {
 		_ = c.SetWriteDeadline(time.Now().Add(3 * time.Second))
 		if _, err := wire.WriteMessageN(c, pm.msg, wire.ProtocolVersion, wire.BitcoinNet(bitcoin.MainNet)); err != nil {
+			if ne, ok := err.(net.Error); ok && ne.Timeout() {
+				lp.mu.Lock()
+				lp.writeTimeouts++ // the peer could not hand a message over within 3 s: the machine is too busy for a verdict about the node
+				lp.mu.Unlock()
+			}
 			return false
 		}
 		if pm.tag == "block" {
@@ -576,7 +582,16 @@ func c19Run(plan *C19Plan) (*nodeViolation, map[string]bool) {
 				return &nodeViolation{"C19/reconnect/none", fmt.Sprintf("the trusted connection was %s at trigger %s but the node did not connect again within 15 s", plan.Action, plan.Trigger)}, flags
 			}
 			if node.blocks.LastHeight() != best.Height {
-				return &nodeViolation{"C19/reconnect/no-resume", fmt.Sprintf("after the connection was %s (node height %d) the node reconnected but stayed at height %d of %d for 15 s", plan.Action, heightAtAction, node.blocks.LastHeight(), best.Height)}, flags
+				lp.mu.Lock()
+				if lp.writeTimeouts > 0 {
+					lp.mu.Unlock()
+					flags["harness:peer-write-timed-out"] = true
+					return nil, flags // no verdict
+				}
+				diag := fmt.Sprintf("connections %d (before %d), getheaders seen %d, blocks sent %d, peer sendheaders %v", len(lp.conns), connsBefore, lp.getHdrs, lp.blocksOut, lp.fp.sendHeaders)
+				lp.mu.Unlock()
+				diag += fmt.Sprintf("; node: ready %v, headers request pending %v, block requests %d, stopping %v", node.state.IsReady(), node.state.HeadersRequested() != nil, node.state.TotalBlockRequestCount(), node.isStopping())
+				return &nodeViolation{"C19/reconnect/no-resume", fmt.Sprintf("after the connection was %s (node height %d) the node reconnected but stayed at height %d of %d for 15 s [%s]", plan.Action, heightAtAction, node.blocks.LastHeight(), best.Height, diag)}, flags
 			}
 		}
 	}
@@ -768,6 +783,19 @@ func TestC19Live(t *testing.T) {
 			if r.v != nil {
 				if verifkit.Known(r.v.key) {
 					rep.Exclude(r.v.key)
+					continue
+				}
+				// real sockets, threads and wall-clock limits, sixteen plans at a time on a machine that
+				// may be busy: a verdict counts when the plan fails again on its own (two more tries)
+				again := false
+				for k := 0; k < 2 && !again; k++ {
+					if v2, _ := c19Run(plans[i]); v2 != nil && v2.key == r.v.key {
+						again = true
+						r.v = v2
+					}
+				}
+				if !again {
+					rep.Label("verdict-not-reproduced:"+r.v.key, 1)
 					continue
 				}
 				// schedule-dependent failures cannot be re-shrunk: record the plan directly
